@@ -309,6 +309,31 @@ def run(ctx):
                     traces.append(tr)
                     ctx.case(key=(sampler, ns, nb, placement, tup))
     rej = ctx.validate_traces("Trace_McChain.tla", "Trace_McChain.cfg", traces, shards=12)
+
+    def m_verdict(t):
+        if t["ev"][-1]["a"] == "ret":
+            t["ev"][-1]["verdicts"][0][1] = False
+            return t
+
+    def m_drop_step(t):
+        ss = [j for j, e in enumerate(t["ev"]) if e["a"] == "step"]
+        if t["cfg"]["sampler"] == "mhcustom" and ss:
+            del t["ev"][ss[0]]                               # one sampler step is missing
+            return t
+
+    def m_points(t):
+        for e in t["ev"]:
+            if e["a"] == "integrate" and t["cfg"]["sampler"] == "mhcustom" and e["at"]:
+                e["at"][0] = int(e["at"][0]) + 1             # the integrand is averaged over another point than the recorded sample
+                return t
+
+    def m_bwd(t):
+        for e in t["ev"]:
+            if e["a"] == "backward" and t["cfg"]["sampler"] == "mhcustom" and e["at"]:
+                e["at"][-1] = int(e["at"][-1]) + 1           # the backward pass evaluates on another point
+                return t
+    ctx.binding_selftest("Trace_McChain.tla", "Trace_McChain.cfg", traces, rej,
+                         [("verdict false", m_verdict), ("step missing", m_drop_step), ("other sample point", m_points), ("backward on other point", m_bwd)])
     bytid = {t["tid"]: t for t in traces}
     for tid_, matched, total in rej:
         t = bytid[tid_]
